@@ -195,7 +195,7 @@ class Gibbs:
         """ Convert each parameter in samples dict to cuqi.samples.Samples object with correct geometry """
         samples_object = {}
         for par_name in self.par_names:
-            samples_object[par_name] = Samples(samples[par_name], self.target.get_density(par_name).geometry)
+            samples_object[par_name] = Samples(samples[par_name].copy(), self.target.get_density(par_name).geometry)
         return samples_object
 
     def _print_progress(self, s, Ns, phase):
